@@ -154,12 +154,37 @@ SPEC_BOOL: dict[str, Callable[[int], bool]] = {
 }
 
 
+def calendar_compare_stub(ranks_ref: dict[str, int]):
+    """Assume/guarantee summary of CalendarSystem._compare(lhs, rhs): the sign of the calendar order of two _YearMonthDay
+    values (established separately: base `compare` by the order domain on the packed value, the Hebrew override by R12.1b)."""
+
+    def stub(args, kws, recv):
+        l, r = (args + [None, None])[:2]
+        try:
+            la = l.fields[mangle("_YearMonthDay", "__value")].name
+            ra = r.fields[mangle("_YearMonthDay", "__value")].name
+            x, y = ranks_ref[la], ranks_ref[ra]
+        except (AttributeError, KeyError):
+            return Iv(-float("inf"), float("inf"), False)
+        return Iv(-float("inf"), -1) if x < y else (Iv(0, 0) if x == y else Iv(1, float("inf")))
+
+    return stub
+
+
 def check_total_order(ctx: Ctx, rr: RuleResult, tname: str, methods: list[str], minmax: bool = True) -> None:
     """R12.1 for one type: every comparison method against the lexicographic relation of the key, on every component-wise ordering."""
     M = ctx.M
     c = M.cls(tname)
     a, b = build(tname, "a"), build(tname, "b")
     n = len(a.keys)
+    _orig_run = run
+
+    def run_(ctx_, f_, so_, params_, ranks_, stubs=None):
+        st = dict(stubs or {})
+        if tname in ("LocalDate", "YearMonth", "LocalDateTime"):
+            st["CalendarSystem._compare"] = calendar_compare_stub(ranks_)
+        return _orig_run(ctx_, f_, so_, params_, ranks_, st)
+
     for name in methods:
         f = M.find_method(c, name)
         if f is None:
@@ -170,7 +195,7 @@ def check_total_order(ctx: Ctx, rr: RuleResult, tname: str, methods: list[str], 
         undec = None
         for rel in orderings(n):
             r = lex(rel)
-            out = run(ctx, f, a.obj, {pname: b.obj}, ranks_for(a, b, rel))
+            out = run_(ctx, f, a.obj, {pname: b.obj}, ranks_for(a, b, rel))
             rr.states += 1
             label = ",".join(REL[x] for x in rel)
             if name == "compare_to":
@@ -205,7 +230,7 @@ def check_total_order(ctx: Ctx, rr: RuleResult, tname: str, methods: list[str], 
             bad = None
             for rel in orderings(n):
                 r = lex(rel)
-                out = run(ctx, f, None, {ps[0]: a.obj, ps[1]: b.obj}, ranks_for(a, b, rel))
+                out = run_(ctx, f, None, {ps[0]: a.obj, ps[1]: b.obj}, ranks_for(a, b, rel))
                 rr.states += 1
                 label = ",".join(REL[x] for x in rel)
                 if out.escaped or not out.values:
